@@ -1045,6 +1045,335 @@ def date_arith(chk, prog, fn, orc, rule="R2.date_arith"):
     chk.extra["date_arith_not_decided"] = nd
 
 
+def _civil(d):
+    """(March-based year, day of that year 0..365, month 0..11 (January = 0), day of month 1..31, calendar year) for the day number d
+    counted from 2000-03-01, by the era arithmetic of the proleptic Gregorian calendar (valid for every integer d)."""
+    z = d + 730485                      # 2000-03-01 is day 5 * 146097 of the era scheme (0000-03-01 = day 0)
+    era = z // 146097
+    doe = z - era * 146097
+    yoe = (doe - doe // 1460 + doe // 36524 - doe // 146096) // 365
+    y = yoe + era * 400
+    doy = doe - (365 * yoe + yoe // 4 - yoe // 100)
+    mp = (5 * doy + 2) // 153
+    dom = doy - (153 * mp + 2) // 5 + 1
+    m = mp + 3 if mp < 10 else mp - 9
+    return y, doy, m - 1, dom, y + (1 if m <= 2 else 0)
+
+
+def date_ymd(chk, prog, fn, orc, rule="R2.date_ymd"):
+    """Year, month and day of month for every day number, in three steps each decided for every input:
+    (1) up to the month loop: the day within the March-based year and that year are piecewise quasi-linear functions of the day number
+        (hv.symx, one 400-year period per sign region + equal increments);
+    (2) the month loop is `while TABLE[m] <= r { r -= TABLE[m]; m += 1 }` from m = 0 over the March-first month-length table
+        (data flow of the loop-carried locals; the table is compared with the calendar in R1.dates);
+    (3) after the loop: month, day and the year carry as functions of (m, r), decided on all (m, r) the loop can leave (12 x 31 values).
+    Composed with the day-number clause of R2.date_arith this fixes year / month / day for every timestamp."""
+    from .. import symx
+    b = prog.bodies.get(fn)
+    if b is None:
+        return
+    aggs = [(i, st["rv"]) for i, blk in enumerate(b.blocks) for st in blk["stmts"]
+            if st.get("rv") and st["rv"].get("k") == "agg" and st["rv"].get("adt", "").endswith("date::DateTime")]
+    loop_blocks = [i for i in range(len(b.blocks)) if not b.blocks[i].get("cleanup") and symx.in_loop(b, i)]
+    heads = [h for h in loop_blocks if all(b.dominates(h, o) for o in loop_blocks)]
+    chk.floor("month loop in From<i64>", len(heads), 1)
+    if len(heads) != 1 or not aggs:
+        return
+    H, (agg_blk, rv) = heads[0], aggs[0]
+    table = orc["days_in_months_march_first"]
+
+    def fail(site, why):
+        chk.ob(rule, fn, site, False, why, where=b.file)
+    # ---- (3) after the loop
+    exits = sorted(set(x for lb in loop_blocks for x in b.succs(lb) if x not in loop_blocks and not b.blocks[x].get("cleanup")))
+    site3 = "after the month loop: month = (m + 2) mod 12, day = r + 1, year + 1 exactly when m + 2 >= 12"
+    try:
+        if len(exits) != 1:
+            raise symx.NotDecidable(f"{len(exits)} loop exits")
+        reg = symx.Region(prog, b, exits[0], agg_blk, max_paths=64)
+        fields = {}
+        paths = reg.paths()
+        for conds, env in paths:
+            env = dict(env)
+            for st in b.blocks[agg_blk]["stmts"]:
+                if st.get("rv") is rv:
+                    break
+                if "pl" in st and not st["pl"]["p"]:
+                    env[st["pl"]["l"]] = reg._rvalue(env, st["rv"])
+            for i, name in enumerate(rv["fields"]):
+                if name in ("year", "month", "day"):
+                    fields.setdefault(name, []).append((conds, reg._operand(env, rv["ops"][i])))
+        allsyms = set()
+        for name in fields:
+            fields[name] = symx.expand(prog, b, fields[name], keep=lambda l: len(symx.def_blocks(b, l)) > 1)
+            for conds, e in fields[name]:
+                allsyms |= symx.syms(e)
+                for c, _ in conds:
+                    allsyms |= symx.syms(c)
+        # the loop-carried locals and the pre-loop year
+        in_loop_defs = lambda l: any(d in loop_blocks for d in symx.def_blocks(b, l))
+        carried = [x for x in allsyms if in_loop_defs(x[1])]
+        others = [x for x in allsyms if not in_loop_defs(x[1])]
+        if len(carried) != 2 or len(others) != 1:
+            raise symx.NotDecidable(f"fields depend on {[symx.show(x) for x in allsyms]}")
+        ysym = others[0]
+        # which carried local is the month counter: the one `month` depends on
+        msyms = set()
+        for conds, e in fields["month"]:
+            msyms |= symx.syms(e)
+        msym = next(x for x in carried if x in msyms)
+        rsym = next(x for x in carried if x is not msym)
+        bad = None
+        for m in range(12):
+            for r in range(31):
+                for Y in (0, 1999, 2000):
+                    bind = {msym: m, rsym: r, ysym: Y}
+                    got = (symx.select(fields["year"], bind), symx.select(fields["month"], bind), symx.select(fields["day"], bind))
+                    want = (Y + (1 if m + 2 >= 12 else 0), (m + 2) % 12, r + 1)
+                    if got != want and bad is None:
+                        bad = (m, r, Y, got, want)
+        chk.ob(rule, fn, site3, bad is None, f"with m={bad[0]}, r={bad[1]}, year={bad[2]}: fields (year, month, day) = {bad[3]}, required {bad[4]}" if bad else "", where=b.file)
+    except (symx.NotDecidable, StopIteration, KeyError) as e:
+        fail(site3, f"not decidable: {e}")
+        return
+    # ---- (2) the loop itself
+    site2 = "the month loop is `while TABLE[m] <= r { r -= TABLE[m]; m += 1 }` starting at m = 0"
+    ml, rl = msym[1], rsym[1]
+    okl, whyl = True, []
+    mdefs = [d for d in b.defs().get(ml, []) if d[0] in loop_blocks]
+    rdefs = [d for d in b.defs().get(rl, []) if d[0] in loop_blocks]
+    def strip_chk(d):
+        if d[0] == "field" and d[2] == 0 and isinstance(d[1], tuple) and d[1][0] == "bin" and d[1][1].endswith("WithOverflow"):
+            return ("bin", d[1][1][:-len("WithOverflow")], d[1][2], d[1][3])
+        return d
+    def is_local(d, l):
+        return isinstance(d, tuple) and d and d[0] in ("multi", "local") and (d[3] if d[0] == "multi" and len(d) > 3 else d[1]) == l
+    def is_tab(d):
+        d = strip_chk(d)
+        if d[0] == "index":
+            from .. import byteset
+            vals = byteset.const_bytes(d[1])
+            if vals is None and d[1][0] == "array":
+                vals = [x[1] for x in d[1][1]]
+            return vals == table and is_local(d[2], ml)
+        return False
+    if len(mdefs) != 1 or len(rdefs) != 1:
+        okl = False
+        whyl.append(f"{len(mdefs)} assignment(s) to the month counter and {len(rdefs)} to the day remainder inside the loop")
+    else:
+        dm = strip_chk(core.describe_rv(prog, b, mdefs[0][3]["rv"])) if mdefs[0][2] == "assign" else None
+        dr = strip_chk(core.describe_rv(prog, b, rdefs[0][3]["rv"])) if rdefs[0][2] == "assign" else None
+        if not (dm and dm[0] == "bin" and dm[1] == "Add" and is_local(dm[2], ml) and dm[3] == ("lit", 1)):
+            okl = False
+            whyl.append(f"month counter update is {core.short(str(dm))[:80]}")
+        if not (dr and dr[0] == "bin" and dr[1] == "Sub" and is_local(dr[2], rl) and is_tab(dr[3])):
+            okl = False
+            whyl.append(f"day remainder update is {core.short(str(dr))[:120]}")
+    # loop test: the edge into the body is TABLE[m] <= r
+    tests = []
+    for lb in loop_blocks:
+        t = b.term(lb)
+        if t and t["k"] == "switch" and t.get("discr_ty") == "bool":
+            info = core.switch_info(prog, b, lb)
+            d = strip_chk(core.describe(prog, b, t["discr"]))
+            stay = [lab for lab, tgt in info["edges"].items() if tgt in loop_blocks]
+            leave = [lab for lab, tgt in info["edges"].items() if tgt not in loop_blocks]
+            if leave:
+                tests.append((d, stay))
+    good_test = False
+    for d, stay in tests:
+        if d[0] == "bin" and d[1] == "Le" and is_tab(d[2]) and is_local(d[3], rl) and stay == ["true"]:
+            good_test = True
+        if d[0] == "bin" and d[1] == "Ge" and is_local(d[2], rl) and is_tab(d[3]) and stay == ["true"]:
+            good_test = True
+        if d[0] == "bin" and d[1] == "Gt" and is_tab(d[2]) and is_local(d[3], rl) and stay == ["false"]:
+            good_test = True
+        if d[0] == "bin" and d[1] == "Lt" and is_local(d[2], rl) and is_tab(d[3]) and stay == ["false"]:
+            good_test = True
+    if len(tests) != 1 or not good_test:
+        okl = False
+        whyl.append(f"loop test is {[(core.short(str(d))[:80], stay) for d, stay in tests]}")
+    # m starts at 0: its only definition outside the loop is the constant 0 before the loop
+    m0 = [d for d in b.defs().get(ml, []) if d[0] not in loop_blocks]
+    if not (len(m0) == 1 and m0[0][2] == "assign" and core.describe_rv(prog, b, m0[0][3]["rv"]) == ("lit", 0) and b.dominates(m0[0][0], H)):
+        okl = False
+        whyl.append("the month counter does not start at 0")
+    chk.ob(rule, fn, site2, okl, "; ".join(whyl), where=b.file)
+    # ---- (1) before the loop, in two stages cut at a block every path passes:
+    #   (1a) up to the cut, r == day number mod 146097 and the cycle count == floor(day number / 146097), for every day number (hv.symx);
+    #   (1b) from the cut to the loop, r and the year as functions of (r at the cut, cycle count), for every r in 0..146096 (finite) and
+    #        linearly in the cycle count.
+    try:
+        rpre = [d for d in symx.def_blocks(b, rl) if d not in loop_blocks]
+        if not rpre:
+            raise symx.NotDecidable("no definition before the loop")
+        first_r = [d for d in rpre if all(b.dominates(d, o) for o in rpre)][0]
+        multi_ = lambda l: len(symx.def_blocks(b, l)) > 1
+        day_locals = set()
+
+        def keep(l):
+            """symbols the expressions are left in terms of: re-assigned locals, and the day number (a value computed once as `.. / 86400`:
+            expanding it to the timestamp would make the period 86400 x 146097)"""
+            if multi_(l):
+                return True
+            if l in day_locals:
+                return True
+            try:
+                v_ = symx.resolve_single(prog, b, l, multi_)
+            except Exception:
+                v_ = None
+            ds_ = b.defs().get(l, [])
+            direct = len(ds_) == 1 and (ds_[0][2] == "call" or (ds_[0][2] == "assign" and ds_[0][3]["rv"]["k"] == "bin"))      # not a copy of it
+            if direct and v_ is not None and v_[0] in ("bin", "chk") and v_[1] in ("Div", "DivE") and v_[3] == symx.lit(orc.get("day", 86400)):
+                day_locals.add(l)
+                return True
+            return False
+        fix = lambda v: ("bin", v[1], v[2], v[3]) if v[0] == "chk" else v
+
+        def pieces_between(start_, stop_, locals_):
+            reg_ = symx.Region(prog, b, start_, stop_, max_paths=256)
+            out_ = {l_: [] for l_ in locals_}
+            for conds, env in reg_.paths():
+                for l_ in locals_:
+                    v_ = env.get(l_)
+                    out_[l_].append((conds, fix(v_) if v_ is not None else ("sym", l_, b.local_name(l_))))
+            return {l_: symx.expand(prog, b, ps_, keep) for l_, ps_ in out_.items()}
+
+        def syms_of(ps_):
+            ss_ = set()
+            for conds, e in ps_:
+                ss_ |= symx.syms(e)
+                for c, _ in conds:
+                    ss_ |= symx.syms(c)
+            return ss_
+        # the cut: the block closest to the loop from which the day remainder entering the loop depends on one value only, and at which that
+        # value is (day number mod 146097) — found by trying the blocks every path passes, nearest first
+        spine = sorted((x for x in range(len(b.blocks)) if b.dominates(x, H) and x != H and x not in loop_blocks and not b.blocks[x].get("cleanup")),
+                       key=lambda x: -sum(1 for o in range(len(b.blocks)) if b.dominates(o, x)))
+        cut, dsym, rs, after = None, None, None, None
+        for X in spine:
+            try:
+                aft = pieces_between(X, H, [rl, ysym[1]])
+                sX = syms_of(aft[rl])
+                if len(sX) != 1:
+                    continue
+                cand = next(iter(sX))
+                defs_c = [d for d in symx.def_blocks(b, cand[1]) if b.dominates(d, X)]
+                defs_c = [d for d in defs_c if all(b.dominates(d, o) for o in defs_c)]
+                if not defs_c:
+                    continue
+                pX = pieces_between(defs_c[0], X, [cand[1]])[cand[1]]
+                sD = syms_of(pX)
+                if len(sD) != 1 or next(iter(sD)) == cand:
+                    continue
+                dX = next(iter(sD))
+                ok, wit, info = symx.decide_forall(pX, dX, lambda d: d % 146097, 146097)
+                if ok:
+                    cut, dsym, rs, after = X, dX, cand, aft
+                    chk.extra.setdefault("date_ymd", []).append({"clause": "remaining days at the cut == day number mod 146097", "cut": b.where(X), **info})
+                    break
+            except symx.NotDecidable:
+                continue
+        site1a = "the 400-year reduction: remaining days == day number mod 146097 (0..146096) and cycle count == floor(day number / 146097), for every day number"
+        if cut is None:
+            raise symx.NotDecidable("no block before the month loop from which the day remainder depends on one value that equals (day number mod 146097)")
+        pr, py = after[rl], after[ysym[1]]
+        if dsym[1] in day_locals:
+            # the day number was kept as a symbol: it is floor((timestamp - anchor) / 86400) for every timestamp
+            epoch = orc["march_01_2000"] if "march_01_2000" in orc else 951868800
+            vd = symx.resolve_single(prog, b, dsym[1], multi_)
+            pd_ = symx.expand(prog, b, [([], fix(vd))], multi_)
+            sd_ = syms_of(pd_)
+            okd = False
+            if len(sd_) == 1 and next(iter(sd_))[1] <= b.argc:
+                okd, witd, infod = symx.decide_forall(pd_, next(iter(sd_)), lambda t: (t - epoch) // 86400, 86400)
+            chk.ob(rule, fn, "day number == floor((timestamp - 951868800) / 86400), for every timestamp", okd,
+                   "" if okd else "the day number is not the floor of the division: dates before the anchor are off by one day", where=b.file)
+        # a cycle count written as `day_number.div_euclid(146097)` in place is the floor by definition: name it
+        QE = ("sym", -1, "day_number.div_euclid(146097)")
+
+        def name_cycle(e):
+            if isinstance(e, tuple) and e and e[0] in ("bin", "chk") and e[1] == "DivE" and e[2] == dsym and e[3] == symx.lit(146097):
+                return QE
+            if isinstance(e, tuple):
+                return tuple(name_cycle(x) if isinstance(x, tuple) else x for x in e)
+            return e
+        py = [([(name_cycle(c), t_) for c, t_ in conds], name_cycle(e)) for conds, e in py]
+        qs = syms_of(py) - {rs}
+        if len(qs) != 1:
+            raise symx.NotDecidable(f"the year depends on {[symx.show(x) for x in syms_of(py)]}")
+        qsym = next(iter(qs))
+        # (1a) for the cycle count
+        okq, pq = False, None
+        if qsym == QE:
+            okq = True
+        else:
+            start_q = [d for d in symx.def_blocks(b, qsym[1]) if b.dominates(d, cut)]
+            start_q = [d for d in start_q if all(b.dominates(d, o) for o in start_q)]
+            pq = pieces_between(start_q[0], cut, [qsym[1]])[qsym[1]] if start_q else None
+            if pq is not None and syms_of(pq) == {dsym}:
+                okq, witq, infoq = symx.decide_forall(pq, dsym, lambda d: d // 146097, 146097)
+        chk.ob(rule, fn, site1a, okq, "" if okq else f"the cycle count is not floor(day number / 146097){' at day number ' + str(witq) if pq is not None and syms_of(pq) == {dsym} else ''}: years before the 2000-03-01 anchor (or after 2400) are off by 400", where=b.file)
+        # (1b) exhaustively over one 400-year cycle
+        site1b = "entering the month loop, r == day within the March-based year and year == that year, for every day of the 400-year cycle and every cycle"
+        def coef_of(e):
+            """coefficient of the cycle count in e when e is affine in it (anything may happen to the other values), else None"""
+            if qsym not in symx.syms(e):
+                return 0
+            if e == qsym:
+                return 1
+            if e[0] in ("bin", "chk") and e[1] in ("Add", "Sub"):
+                l_, r_ = coef_of(e[2]), coef_of(e[3])
+                if l_ is None or r_ is None:
+                    return None
+                return l_ + r_ if e[1] == "Add" else l_ - r_
+            if e[0] in ("bin", "chk") and e[1] == "Mul":
+                for a_, b2 in ((e[2], e[3]), (e[3], e[2])):
+                    if a_[0] == "lit" and isinstance(a_[1], int) and not isinstance(a_[1], bool):
+                        c_ = coef_of(b2)
+                        return None if c_ is None else a_[1] * c_
+            return None
+        import os as _os
+        if _os.environ.get("HV_DEBUG_DATE"):
+            print("DEBUG qsym", qsym, "rs", rs, "dsym", dsym)
+            for conds, e in py[:2]:
+                print("DEBUG py", symx.show(e)[:400])
+        for conds, e in py:
+            if coef_of(e) != 400 or any(qsym in symx.syms(c) for c, _ in conds):
+                raise symx.NotDecidable(f"the year is not (400 x cycle count + a function of the day within the cycle): coefficient {coef_of(e)}")
+        bad = None
+        for R in range(146097):
+            y_, doy_, _, _, _ = _civil(R)
+            r_got = symx.select(pr, {rs: R})
+            y0 = symx.select(py, {rs: R, qsym: 0})
+            if r_got != doy_ or y0 != y_:
+                bad = (R, r_got, doy_, y0, y_)
+                break
+        if bad is None:
+            for R in (0, 36523, 36524, 146096):
+                if symx.select(py, {rs: R, qsym: 1}) - symx.select(py, {rs: R, qsym: 0}) != 400 or symx.select(py, {rs: R, qsym: -3}) - symx.select(py, {rs: R, qsym: 0}) != -1200:
+                    bad = (R, "cycle step", 400, symx.select(py, {rs: R, qsym: 1}) - symx.select(py, {rs: R, qsym: 0}), 400)
+        if bad:
+            _, _, m_, dom_, cy_ = _civil(bad[0])
+            chk.ob(rule, fn, site1b, False, f"day {bad[0]} of the cycle ({cy_:04d}-{m_ + 1:02d}-{dom_:02d}): day of year {bad[1]} (required {bad[2]}), year {bad[3]} (required {bad[4]}): "
+                   "month, day of month or year are wrong on these days (typically the last day of a 4-, 100- or 400-year cycle)", where=b.file)
+        else:
+            chk.ob(rule, fn, site1b, True, "", where=b.file)
+        chk.extra.setdefault("date_ymd", []).append({"clause": site1b, "mode": "finite domain", "points": 146097, "day_number_local": symx.show(dsym)})
+    except (symx.NotDecidable, IndexError) as e:
+        fail("entering the month loop, r and year are the March-based day-of-year and year of the day number", f"not decidable: {e}")
+    # consistency of the reference itself with the table: walking the table from March gives the month / day the era arithmetic gives
+    for doy in range(366):
+        m, r = 0, doy
+        while m < 12 and table[m] <= r:
+            r -= table[m]
+            m += 1
+        _, _, mm, dom, _ = _civil(doy)        # day numbers 0..365 are 2000-03-01 .. 2001-03-01
+        if doy < 366 and m < 12 and ((m + 2) % 12, r + 1) != (mm, dom) and doy != 365:
+            chk.ob(rule, "oracle", "month table walk agrees with the calendar", False, f"doy {doy}: table gives {(m + 2) % 12, r + 1}, calendar {mm, dom}")
+            break
+
+
 def dates(chk, prog, orc):
     P = "humphrey::http::date::"
     def cv(name):
@@ -1073,6 +1402,7 @@ def dates(chk, prog, orc):
     chk.floor("DateTime::from(i64)", len(fs), 1)
     if fs:
         date_arith(chk, prog, fs[0], orc)
+        date_ymd(chk, prog, fs[0], orc)
     ts = prog.impl_fn(r"^<humphrey::http::date::DateTime as std::string::ToString>$", "to_string") + prog.impl_fn(r"^<humphrey::http::date::DateTime as std::fmt::Display>$", "fmt")
     chk.floor("DateTime to_string", len(ts), 1)
     if ts:
@@ -1148,9 +1478,10 @@ def run(chk):
         "percent_decode; panic inventory of the two decoders. Decided for every input: the SHA-1 padding arithmetic (R-ARITH) and, by data flow, the whole "
         "compression structure (word load, schedule recurrence, round update, f/K pairing, chaining, digest order), so the function is RFC 3174's method 1; "
         "the Base64 encoder bit by bit (R-BITS) with its group slicing, and the decoder's grouping / shift / output structure, so decode inverts encode; "
-        "the HTTP date's day number, second of day, weekday, hour, minute, second as functions of the timestamp (R-ARITH).")
-    chk.not_decided = ("year / month / day-of-month of the HTTP date (they run through the month loop); percent-encoding of every byte beyond the unreserved-set "
-                       "table and the hex gate; std's u32::rotate_left / wrapping_add / from_be_bytes (trusted)")
+        "the HTTP date's day number, second of day, weekday, hour, minute, second as functions of the timestamp (R-ARITH) and year / month / day through "
+        "the 400-year reduction, an exhaustive 146 097-day cycle and the month loop (R2.date_ymd); percent-encoding and -decoding byte class by byte class (R-BYTECLASS).")
+    chk.not_decided = ("std's u32::rotate_left / wrapping_add / from_be_bytes / u8::from_str_radix / format!(\"{:02X}\") (trusted); run-time equality itself "
+                       "(the rules decide the structure and the finite / periodic arithmetic that determine it)")
     chk.assumptions = ["rustc type checking / HIR / MIR", "oracles/constants.json transcribes the RFC constants",
                        "no integer overflow in the date / padding arithmetic for |timestamp| < 2^62 and lengths < 2^56"]
     sha1(chk, prog, orc)
